@@ -1,0 +1,27 @@
+"""Observation hook for external runtime monitors.
+
+Disabled unless the environment variable ``PB_BSS_VERIF`` is ``1`` when this
+module is imported. When enabled, the EM loops of the mixture model trainers
+report their state after every M-step to all subscribed callbacks. The hook
+only observes: the payload holds references to the live objects and nothing
+is fed back into the computation.
+"""
+import os
+
+ENABLED = os.environ.get('PB_BSS_VERIF', '') == '1'
+
+_subscribers = []
+
+
+def subscribe(callback):
+    """Register ``callback(event: str, payload: dict)``."""
+    _subscribers.append(callback)
+
+
+def unsubscribe(callback):
+    _subscribers.remove(callback)
+
+
+def emit(event, **payload):
+    for callback in tuple(_subscribers):
+        callback(event, payload)
